@@ -35,6 +35,7 @@ type scfgT struct {
 	Cert, Key, Pol, Kem string
 	Hidden              bool
 	Auth                []string
+	Rev                 []string
 }
 type ccfgT struct {
 	Cert, Key, Pol, Name, Skem string
@@ -86,7 +87,7 @@ var (
 
 func dnsOf(n string) string {
 	switch n {
-	case "a":
+	case "a", "araw":
 		return "a.example"
 	case "b":
 		return "b.example"
@@ -101,6 +102,9 @@ func identFor(id string, c certT) *hopkit.Ident {
 		return x
 	}
 	x := pki.Issue(c.Cls, dnsOf(c.Name))
+	if c.Name == "araw" {
+		x = pki.IssueRawName(dnsOf(c.Name))
+	}
 	idents[id] = x
 	return x
 }
@@ -202,7 +206,21 @@ func replay(idx int, b *beh, seed int64) (res result) {
 				}
 			}
 		}
-		opt := hopkit.SrvOpt{Ident: holder(b, sc.Cert, sc.Key), Hidden: sc.Hidden, ClientVerify: pki.Policy(sc.Pol, "", auth...)}
+		var rev []keys.DHPublicKey
+		for cid, c := range b.Certs {
+			for _, a := range sc.Rev {
+				if c.Key == a {
+					rev = append(rev, identFor(cid, c).Key.Public)
+				}
+			}
+		}
+		pol := pki.Policy(sc.Pol, "", append(auth, rev...)...)
+		if pol.AuthKeys != nil {
+			for _, k := range rev { // authorised earlier, removed since
+				pol.AuthKeys.RemoveKey(k)
+			}
+		}
+		opt := hopkit.SrvOpt{Ident: holder(b, sc.Cert, sc.Key), Hidden: sc.Hidden, ClientVerify: pol}
 		if sc.Kem != "none" {
 			opt.KEM = kemFor(sc.Kem)
 		}
